@@ -123,7 +123,64 @@ type genState struct {
 	members int
 }
 
+// tinyAlphabet: the step types of the enumerated tiny programs (mode seq, every 2nd run).
+func tinyAlphabet() []Step {
+	busy, lockFast := retry.BoTiKVServerBusy.String(), retry.BoTxnLockFast.String()
+	return []Step{
+		{Op: "bo", Kind: "own0", Via: "B", Max: -1, Rep: 1},
+		{Op: "bo", Kind: "own0", Via: "C", Max: 1, Rep: 1},
+		{Op: "bo", Kind: "own1", Via: "B", Max: -1, Rep: 1},
+		{Op: "bo", Kind: "own1", Via: "C", Max: 0, Rep: 1},
+		{Op: "bo", Kind: busy, Via: "C", Max: 2, Rep: 1},
+		{Op: "bo", Kind: lockFast, Via: "L", Max: 1, Rep: 1},
+		{Op: "reset", Max: -1},
+		{Op: "resetmax", Max: -1, Ms: 2},
+		{Op: "clone", Max: -1, Steps: []Step{{Op: "bo", Kind: "own0", Via: "B", Max: -1, Rep: 2}}},
+		{Op: "gap", Max: -1, Ms: 1},
+	}
+}
+
+// generateTiny enumerates (not samples) small sequential programs: run number n of the
+// enumeration = (budget, weight) combination n%12 and the (n/12)-th sequence over
+// tinyAlphabet in length-then-lexicographic order, on jitter-free kinds with sleeps of 2-4 ms,
+// so that every boundary (slept == budget, per-call maximum 0/1, reset at the limit) is met.
+// Cancellation and kill instants stay seeded.
+func generateTiny(cfg simkit.RunConfig, n int) *Scenario {
+	rng := simkit.Rand(cfg.Seed, "gen-tiny")
+	sc := &Scenario{Mode: "seq", CancelAtUs: -1, KillAtUs: -1, LockFast: 2}
+	sc.RandSeed = int64(simkit.NewHasher(cfg.Seed, "jitter").U64("seed") >> 1)
+	combo, seq := n%12, n/12
+	sc.Budget = []int{0, 1, 2, 3, 5, 8}[combo%6]
+	sc.Weight = 1 + combo/6
+	sc.Own = []OwnCfg{{Name: "own0", Base: 2, Cap: 4, Jitter: retry.NoJitter}, {Name: "own1", Base: 3, Cap: 3, Jitter: retry.NoJitter}, {Name: "own2", Base: 2, Cap: 2, Jitter: retry.FullJitter}}
+	alpha := tinyAlphabet()
+	length, pow := 1, len(alpha)
+	for seq >= pow && length < 7 {
+		seq -= pow
+		length++
+		pow *= len(alpha)
+	}
+	seq %= pow
+	for i := 0; i < length; i++ {
+		sc.Steps = append(sc.Steps, alpha[seq%len(alpha)])
+		seq /= len(alpha)
+	}
+	dur, _ := estimate(sc)
+	if rng.Intn(100) < 30 {
+		sc.CancelAtUs = int64(rng.Intn(int(dur)+2))*1000 + 500
+		sc.CancelTarget = "root"
+	}
+	if rng.Intn(100) < 20 {
+		sc.KillAtUs = int64(rng.Intn(int(dur)+2))*1000 + 700
+		sc.KillVal = uint32(1 + rng.Intn(4))
+	}
+	return sc
+}
+
 func generate(cfg simkit.RunConfig, mode string) *Scenario {
+	if mode == "seq" && cfg.Index%2 == 0 {
+		return generateTiny(cfg, cfg.Index/2)
+	}
 	rng := simkit.Rand(cfg.Seed, "gen")
 	sc := &Scenario{Mode: mode, CancelAtUs: -1, KillAtUs: -1}
 	sc.RandSeed = int64(simkit.NewHasher(cfg.Seed, "jitter").U64("seed") >> 1)
